@@ -37,9 +37,10 @@ def effective (ex pc : RD) : RD :=
     oversub := pc.oversub <|> ex.oversub
     extra := pc.extra <|> ex.extra }
 
-/-- `slots_required = resource_dict["cores"] * resource_dict.get("threads_per_core", 1)`
-    (the per-call dictionary only: an executor-level `threads_per_core` is not counted, D18) -/
-def slots (ex pc : RD) : Nat := mergeCores ex pc * pc.threads.getD 1
+/-- `slots_required = resource_dict["cores"] * resource_dict.get("threads_per_core",
+    executor_kwargs.get("threads_per_core", 1))` (fix 8703212: the executor-level value counts when the
+    call names none) -/
+def slots (ex pc : RD) : Nat := mergeCores ex pc * (pc.threads <|> ex.threads).getD 1
 
 /-- One dispatch: the executor-level dictionary the dispatcher keeps for later calls, and the
     keywords of this call's worker thread.  (`executor_kwargs` is only copied, never written.) -/
